@@ -29,7 +29,7 @@ ROOT = os.path.dirname(HERE)
 sys.path.insert(0, ROOT)
 PY = '/venv/bin/python'
 SIBLING = {'p': 'g', 'q': 'g', 'r': 'h', 's': 'h', 't': 'h', 'u': 'i', 'v': 'i', 'w': 'i', 'x': 'j', 'y': 'j', 'z': 'j',
-           'l': 'k', 'm': 'k', 'n': 'k'}
+           'l': 'k', 'm': 'k', 'n': 'k', 'ba': 'o', 'bb': 'o', 'bc': 'o'}
 
 
 def job(args):
